@@ -1526,6 +1526,180 @@ theorem write_idempotent (text : Bytes) (refs : List (Bytes × Nat)) (hh : valid
     rw [← hlen]; exact range_filterMap_getElem? _
   rw [this]
 
+/-! ### selection programs: any sequence of selections, writes and reads on one extractor -/
+
+theorem length_le_encodeAll (recs : List Rec) : recs.length ≤ (encodeAll recs).length := by
+  induction recs with
+  | nil => simp
+  | cons r rs ih => simp [encodeAll_cons, encodeRec_length]; omega
+
+/-- the extractor represents the records `rs`: record `i` lies at `starts[i]` in the buffer and ends at `ends[i]` -/
+inductive Rep (data : Bytes) : List Nat → List Nat → List Rec → Prop
+  | nil : Rep data [] [] []
+  | cons (s e : Nat) (r : Rec) (ss es : List Nat) (rs : List Rec) (post : Bytes) :
+      data.drop s = encodeRec r ++ post → e = s + (encodeRec r).length → Rep data ss es rs →
+      Rep data (s :: ss) (e :: es) (r :: rs)
+
+theorem bounds_head (s : Nat) (rs : List Rec) : bounds s rs = s :: (bounds s rs).drop 1 := by
+  cases rs <;> simp [bounds]
+
+theorem rep_chunk (tail : Bytes) (recs : List Rec) : ∀ (pre : Bytes) (D : Bytes), D = pre ++ (encodeAll recs ++ tail) →
+    Rep D (startsOf pre.length recs) ((bounds pre.length recs).drop 1) recs := by
+  induction recs with
+  | nil => intro pre D _; simp [startsOf, bounds]; exact Rep.nil
+  | cons r rs ih =>
+    intro pre D hD
+    have h1 : D.drop pre.length = encodeRec r ++ (encodeAll rs ++ tail) := by
+      rw [hD, List.drop_left' rfl]; simp [encodeAll_cons]
+    have h2 : D = (pre ++ encodeRec r) ++ (encodeAll rs ++ tail) := by rw [hD]; simp [encodeAll_cons]
+    have := ih (pre ++ encodeRec r) D h2
+    simp only [List.length_append] at this
+    simp only [startsOf, bounds, List.drop_succ_cons, List.drop_zero]
+    rw [bounds_head]
+    exact Rep.cons _ _ r _ _ rs _ h1 rfl this
+
+theorem rep_get {data : Bytes} {ss es : List Nat} {rs : List Rec} (h : Rep data ss es rs) :
+    ∀ i, i < rs.length → ∃ s e r post, ss[i]? = some s ∧ es[i]? = some e ∧ rs[i]? = some r ∧
+      data.drop s = encodeRec r ++ post ∧ e = s + (encodeRec r).length := by
+  induction h with
+  | nil => intro i hi; simp at hi
+  | cons s e r ss es rs post h1 h2 _ ih =>
+    intro i hi
+    cases i with
+    | zero => exact ⟨s, e, r, post, rfl, rfl, rfl, h1, h2⟩
+    | succ i =>
+      obtain ⟨s', e', r', post', a, b, c, d, f⟩ := ih i (by simpa using hi)
+      exact ⟨s', e', r', post', by simpa using a, by simpa using b, by simpa using c, d, f⟩
+
+theorem rep_select {data : Bytes} {ss es : List Nat} {rs : List Rec} (h : Rep data ss es rs) (idx : List Nat)
+    (hidx : ∀ i ∈ idx, i < rs.length) :
+    Rep data (idx.filterMap (ss[·]?)) (idx.filterMap (es[·]?)) (idx.filterMap (rs[·]?)) := by
+  induction idx with
+  | nil => exact Rep.nil
+  | cons i is ih =>
+    obtain ⟨s, e, r, post, a, b, c, d, f⟩ := rep_get h i (hidx i (by simp))
+    simp only [List.filterMap_cons, a, b, c]
+    exact Rep.cons s e r _ _ _ post d f (ih (fun j hj => hidx j (by simp [hj])))
+
+theorem rep_gather {data : Bytes} {ss es : List Nat} {rs : List Rec} (h : Rep data ss es rs) :
+    (ss.zip es).map (fun p => p.2 - p.1) = rs.map (fun r => (encodeRec r).length) ∧
+    (ss.zip ((ss.zip es).map (fun p => p.2 - p.1))).flatMap (fun p => slice data p.1 p.2) = encodeAll rs := by
+  induction h with
+  | nil => exact ⟨rfl, rfl⟩
+  | cons s e r ss es rs post h1 h2 _ ih =>
+    have hl : e - s = (encodeRec r).length := by omega
+    have hs : slice data s (encodeRec r).length = encodeRec r := by
+      unfold slice; rw [h1]; simp
+    constructor
+    · simp only [List.zip_cons_cons, List.map_cons, hl, ih.1]
+    · simp only [List.zip_cons_cons, List.map_cons, List.flatMap_cons, hl, hs, encodeAll_cons, ih.2]
+
+theorem offsets_startsOf (rs : List Rec) : ∀ s, offsets s (rs.map (fun r => (encodeRec r).length)) = startsOf s rs := by
+  induction rs with
+  | nil => intro s; rfl
+  | cons r rs ih => intro s; simp [offsets, startsOf, ih]
+
+theorem ends_bounds (rs : List Rec) : ∀ s, ((startsOf s rs).zip (rs.map (fun r => (encodeRec r).length))).map (fun p => p.1 + p.2)
+    = (bounds s rs).drop 1 := by
+  induction rs with
+  | nil => intro s; simp [startsOf, bounds]
+  | cons r rs ih =>
+    intro s
+    simp only [startsOf, List.map_cons, List.zip_cons_cons, bounds, List.drop_succ_cons, List.drop_zero, ih]
+    conv => rhs; rw [bounds_head (s + (encodeRec r).length) rs]
+
+theorem rep_records {data : Bytes} {ss es : List Nat} {rs : List Rec} (h : Rep data ss es rs) (names : List Bytes)
+    (hv : ∀ r ∈ rs, valid names.length r = true) :
+    ss.map (decodeAt false false names data) = rs.map (view names) := by
+  induction h with
+  | nil => rfl
+  | cons s e r ss es rs post h1 _ _ ih =>
+    simp only [List.map_cons]
+    congr 1
+    · unfold decodeAt
+      rw [h1, decodeRel_encode names names.length r (hv r (by simp)) post]
+      exact decoded_eq_view names r (hv r (by simp))
+    · exact ih (fun q hq => hv q (by simp [hq]))
+
+theorem filterMap_getElem?_length {α} (l : List α) (idx : List Nat) (h : ∀ i ∈ idx, i < l.length) :
+    (idx.filterMap (l[·]?)).length = idx.length := by
+  induction idx with
+  | nil => rfl
+  | cons i is ih =>
+    have hi := h i (by simp)
+    simp only [List.filterMap_cons, List.getElem?_eq_getElem hi, List.length_cons]
+    rw [ih (fun j hj => h j (by simp [hj]))]
+
+/-- extractor invariant: it represents `cur`, and when it is marked contiguous its buffer is exactly their encoding -/
+def ExtInv (e : Ext) (cur : List Rec) : Prop :=
+  Rep e.data e.starts e.ends cur ∧ (e.contig = true → e.data = encodeAll cur)
+
+theorem compact_inv (e : Ext) (cur : List Rec) (h : ExtInv e cur) :
+    ExtInv e.compact cur ∧ e.compact.data = encodeAll cur := by
+  unfold Ext.compact
+  by_cases hc : e.contig = true
+  · rw [if_pos hc]; exact ⟨h, h.2 hc⟩
+  · rw [if_neg hc]
+    obtain ⟨hl, hg⟩ := rep_gather h.1
+    rw [hl] at hg
+    simp only [hl, hg, offsets_startsOf, ends_bounds]
+    refine ⟨⟨?_, fun _ => rfl⟩, trivial⟩
+    have := rep_chunk [] cur [] (encodeAll cur) (by simp)
+    simpa using this
+
+theorem runProg_spec (names : List Bytes) (prog : List PStep) : ∀ (e : Ext) (cur : List Rec), ExtInv e cur →
+    (∀ r ∈ cur, valid names.length r = true) → progOK cur.length prog = true →
+    runProg names e prog = specProg names cur prog := by
+  induction prog with
+  | nil => intro e cur _ _ _; rfl
+  | cons st p ih =>
+    intro e cur hinv hv hok
+    cases st with
+    | select idx =>
+      simp only [progOK, Bool.and_eq_true, List.all_eq_true, decide_eq_true_eq] at hok
+      simp only [runProg, specProg]
+      apply ih
+      · exact ⟨rep_select hinv.1 idx hok.1, by intro h; simp [Ext.getitem] at h⟩
+      · intro r hr
+        simp only [List.mem_filterMap] at hr
+        obtain ⟨i, _, hi⟩ := hr
+        exact hv r (List.mem_of_getElem? hi)
+      · rw [filterMap_getElem?_length cur idx hok.1]; exact hok.2
+    | write =>
+      obtain ⟨hinv', hdata⟩ := compact_inv e cur hinv
+      simp only [runProg, specProg, hdata]
+      rw [ih e.compact cur hinv' hv (by simpa [progOK] using hok)]
+    | fields =>
+      simp only [runProg, specProg, Ext.records, rep_records hinv.1 names hv]
+      rw [ih e cur hinv hv (by simpa [progOK] using hok)]
+
+/-- **selection programs**: whatever sequence of selections (mask, index list, slice, reordering, repetition — also of an
+already selected or already written table), writes and field reads is applied to the table read from a BAM file, every
+write produces exactly the encoding of the records selected at that point, in their order, and every read their views -/
+theorem selection_program (names : List Bytes) (recs : List Rec) (hv : ∀ r ∈ recs, valid names.length r = true)
+    (prog : List PStep) (hok : progOK recs.length prog = true) :
+    runProg names (Ext.ofChunk (addNewline (encodeAll recs))) prog = specProg names recs prog := by
+  apply runProg_spec names prog _ recs _ hv hok
+  obtain ⟨tail, ht, hc⟩ : ∃ tail, Stops tail ∧ addNewline (encodeAll recs) = encodeAll recs ++ tail := by
+    unfold addNewline
+    split
+    · exact ⟨[], stops_nil, by simp⟩
+    · exact ⟨[10], stops_newline, rfl⟩
+  have hlen : recs.length + 2 ≤ (encodeAll recs ++ tail).length + 2 := by
+    have := length_le_encodeAll recs
+    simp; omega
+  have hfs : findStarts (encodeAll recs ++ tail) = bounds 0 recs := by
+    have := findStarts_chain names.length tail ht recs [] _ hv hlen
+    simpa [findStarts] using this
+  rw [hc]
+  unfold Ext.ofChunk
+  simp only [hfs, bounds_getLast, bounds_dropLast, Option.getD_some, Nat.zero_add]
+  have htake : (encodeAll recs ++ tail).take (encodeAll recs).length = encodeAll recs := by simp
+  rw [htake]
+  refine ⟨?_, fun _ => rfl⟩
+  have := rep_chunk [] recs [] (encodeAll recs) (by simp)
+  simpa using this
+
 /-! ### non-vacuity: the hypotheses are satisfiable by non-trivial values -/
 
 def exNames : List Bytes := [[99, 104, 114, 49], [99, 104, 114, 88]]
@@ -1567,6 +1741,11 @@ theorem staleOffsets_unsound :
     let compacted := selectBytes (addNewline (encodeAll [exR1, exR2, exR3])) [2]
     decodeAt false false exNames compacted 0 = view exNames exR3 ∧
     (decodeAt false false exNames compacted 106).name ≠ exR3.name := by decide +kernel
+
+example : progOK 3 [.select [2, 0, 2], .write, .select [1, 2], .fields, .write] = true := by decide
+example : runProg exNames (Ext.ofChunk (addNewline (encodeAll [exR1, exR2, exR3]))) [.select [2, 0, 2], .write, .select [1, 2], .fields, .write]
+    = [.written (encodeAll [exR3, exR1, exR3]), .read [view exNames exR1, view exNames exR3], .written (encodeAll [exR1, exR3])] := by
+  decide +kernel
 
 /-- the chunk-size bound of the property is needed: with a chunk size below the largest record the
 reader (as modelled, and as the code behaves) delivers nothing -/
